@@ -514,3 +514,21 @@ M("C15-benign-guard-form", "C15", "src/cppparser/cppPreprocessor.cxx",
 M("C15-benign-return-1", "C15", "src/interrogate/interrogate.cxx",
   "      cerr << \"interrogate failed to parse file: '\" << argv[i] << \"'\\n\";\n      exit(1);", "      cerr << \"interrogate failed to parse file: '\" << argv[i] << \"'\\n\";\n      return 1;",
   benign=True)
+
+# ---------------------------------------------------------------- C06
+M("C06-simpletype-flags-not-ordered", "C06", "src/cppparser/cppSimpleType.cxx",
+  "  if (_type != ot->_type) {\n    return _type < ot->_type;\n  }\n  return _flags < ot->_flags;", "  return _type < ot->_type;",
+  expect="R06.1|CPPSimpleType::is_less|_flags")
+M("C06-reference-category-ignored", "C06", "src/cppparser/cppReferenceType.cxx",
+  "  return (_pointing_at == ot->_pointing_at) &&\n         (_value_category == ot->_value_category);", "  return (_pointing_at == ot->_pointing_at);",
+  expect="R06.1|CPPReferenceType::is_equal|_value_category")
+M("C06-operator-not-compared", "C06", "src/cppparser/cppExpression.cxx",
+  "    if (_u._op._operator != ot->_u._op._operator) {\n      return _u._op._operator < ot->_u._op._operator;\n    }\n", "",
+  expect="R06.2|is_less|T_binary_operation|_u._op._operator")
+M("C06-array-bounds-ignored", "C06", "src/cppparser/cppArrayType.cxx",
+  "  if (_bounds != nullptr && ot->_bounds != nullptr) {\n    if (*_bounds != *ot->_bounds) {\n      return *_bounds < *ot->_bounds;\n    }\n  } else if ((_bounds == nullptr) != (ot->_bounds == nullptr)) {\n    return _bounds < ot->_bounds;\n  }\n\n  if (*_element_type != *ot->_element_type) {\n    return *_element_type < *ot->_element_type;\n  }\n  return false;",
+  "  if (*_element_type != *ot->_element_type) {\n    return *_element_type < *ot->_element_type;\n  }\n  return false;",
+  expect="R06.1|CPPArrayType::is_less|_bounds")
+M("C06-benign-extra-field", "C06", "src/cppparser/cppConstType.cxx",
+  "  return _wrapped_around < ot->_wrapped_around;", "  if (_wrapped_around == ot->_wrapped_around) {\n    return false;\n  }\n  return _wrapped_around < ot->_wrapped_around;",
+  benign=True)
